@@ -156,6 +156,11 @@ def _traverse_and_extract(
                     if key in invoke:
                         _extract_from_transition(invoke[key], actions, guards)
 
+    # 🏁 Process the state's own completion (`onDone`) transition; its actions
+    #    and guards need implementations like any other transition's.
+    if "onDone" in node:
+        _extract_from_transition(node["onDone"], actions, guards)
+
     # ⚡ Process eventless ("always") transitions. Previously skipped, so a
     #    guard used only by `always` was never emitted and the generated
     #    machine failed to build with ImplementationMissingError.
